@@ -101,7 +101,7 @@ def rule_ipalias(repo, rid, modules):
                      'the two names are one storage, the later read sees the updated values', floor=1)
     n = 0
     for m in modules:
-        for f in repo.module(m).functions.values():
+        for f in repo.functions_view(m):
             n += 1
             hz = alias_hazards(f.node)
             res.inst({'function': f.fq, 'aliased in-place results': [src(st)[:50] for st, *_ in hz]}, f.fq if hz else None)
@@ -163,7 +163,7 @@ def rule_lostupdate(repo, rid, modules):
                      'update never reaches x (write `x[M] = x[M] op ..` or index_put_ / masked ops)', floor=1)
     n = 0
     for m in modules:
-        for f in repo.module(m).functions.values():
+        for f in repo.functions_view(m):
             n += 1
             for st, sub in lost_updates(f.node):
                 res.inst({'function': f.fq, 'statement': src(st)[:70]}, (f.fq, src(st)[:70]))
@@ -235,7 +235,7 @@ def rule_storage(repo, rid, modules):
                      '(detach_): "making it contiguous", "normalising the rank" or "keeping a copy for inspection" this way changes the object the caller holds', floor=1)
     n = 0
     for m in modules:
-        for f in repo.module(m).functions.values():
+        for f in repo.functions_view(m):
             n += 1
             for node, what in storage_mutations(f.node):
                 res.inst({'function': f.fq, 'site': src(node)[:50]}, (f.fq, src(node)[:50]))
